@@ -274,6 +274,9 @@ func (ex *Exec) load(c *Cell) Value {
 		if st, isSt := c.T.Underlying().(*types.Struct); isSt && st.NumFields() == 0 {
 			return AggV{}
 		}
+		if len(ex.guards) > 0 {
+			return ex.simpG(c.V)
+		}
 		return c.V
 	}
 	a := make(AggV, len(c.Kids))
@@ -303,6 +306,16 @@ func (ex *Exec) store(c *Cell, v Value) {
 		if c.base && ex.initMode == 0 {
 			ex.undo = append(ex.undo, undoRec{c: c, v: c.V})
 		}
+		if len(ex.guards) > 0 {
+			if g := ex.guardFor(c); g != nil {
+				m, ok := ex.iteTry(g, v, c.V)
+				if !ok {
+					panic(&mergeAbort{"store of unmergeable value"})
+				}
+				v = m
+			}
+			ex.mlog = append(ex.mlog, mlogRec{c, c.V})
+		}
 		c.V = v
 		return
 	}
@@ -323,34 +336,8 @@ func (ex *Exec) store(c *Cell, v Value) {
 
 // ite builds the value "if cond then a else b" for values of the same shape.
 func (ex *Exec) ite(cond *smt.Term, a, b Value) Value {
-	if cond.IsTrue() {
-		return a
-	}
-	if cond.IsFalse() {
-		return b
-	}
-	switch x := a.(type) {
-	case *smt.Term:
-		return ex.ctx.Ite(cond, x, b.(*smt.Term))
-	case AggV:
-		y := b.(AggV)
-		r := make(AggV, len(x))
-		for i := range x {
-			r[i] = ex.ite(cond, x[i], y[i])
-		}
-		return r
-	case StrV:
-		y := b.(StrV)
-		if len(x.B) == len(y.B) {
-			r := StrV{B: make([]*smt.Term, len(x.B))}
-			for i := range x.B {
-				r.B[i] = ex.ctx.Ite(cond, x.B[i], y.B[i])
-			}
-			return r
-		}
-	}
-	if ex.sameValue(a, b) {
-		return a
+	if m, ok := ex.iteTry(cond, a, b); ok {
+		return m
 	}
 	// cannot merge: split the path
 	if ex.Branch(cond) {
@@ -358,6 +345,8 @@ func (ex *Exec) ite(cond *smt.Term, a, b Value) Value {
 	}
 	return b
 }
+
+func typesIdentical(a, b types.Type) bool { return types.Identical(a, b) }
 
 // sameValue is identity for reference-like values, structural for scalars.
 func (ex *Exec) sameValue(a, b Value) bool {
